@@ -18,3 +18,10 @@ template class LabeledUndirectedGraph<EdgeMultiplicity>;
 template class LabeledDirectedGraph<EdgeWeight>;
 template class LabeledUndirectedGraph<EdgeWeight>;
 }
+// ---- free function templates (algorithms)
+namespace BaseGraph { namespace algorithms {
+template LabeledDirectedGraph<VLabel> getSubgraph<LabeledDirectedGraph, VLabel>(const LabeledDirectedGraph<VLabel> &, const std::unordered_set<VertexIndex> &);
+template LabeledUndirectedGraph<VLabel> getSubgraph<LabeledUndirectedGraph, VLabel>(const LabeledUndirectedGraph<VLabel> &, const std::unordered_set<VertexIndex> &);
+template LabeledDirectedGraph<NoLabel> getSubgraph<LabeledDirectedGraph, NoLabel>(const LabeledDirectedGraph<NoLabel> &, const std::unordered_set<VertexIndex> &);
+template LabeledUndirectedGraph<NoLabel> getSubgraph<LabeledUndirectedGraph, NoLabel>(const LabeledUndirectedGraph<NoLabel> &, const std::unordered_set<VertexIndex> &);
+}}
